@@ -385,7 +385,12 @@ def _str_parse(ex, c):
         if ip is not None:
             return ok(Adt("IpAddr", "V4", [Adt("Ipv4Addr", None, [BV(z3.BitVecVal(ip, 32))])]))
         if ":" in s.text:
-            raise Unsupported("str::parse::<IpAddr> of IPv6 text")
+            import ipaddress
+            try:
+                v6 = int(ipaddress.IPv6Address(s.text))
+            except ValueError:
+                return err(Opaque("AddrParseError"))
+            return ok(Adt("IpAddr", "V6", [Adt("Ipv6Addr", None, [BV(z3.BitVecVal(v6, 128))])]))
         return err(Opaque("AddrParseError"))
     if base_type_name(ty) in INT_TYPES:
         if s.text is None:
